@@ -91,6 +91,13 @@ theorem fits_recv_whole (cap : Nat) (chan : Bool) (d : Dgram) (h : d.bytes.lengt
     recvInto cap chan d = .ok (d.bytes.length, d.bytes) := by
   simp [recvInto, h]
 
+/-- no datagram, whatever its size, makes a receive panic (C16: oversized payloads); an oversized one is refused
+(`chan`) or truncated to the buffer (`unix`) -/
+theorem recv_never_panics (cap : Nat) (chan : Bool) (d : Dgram) : recvInto cap chan d ≠ .panic := by
+  unfold recvInto; split
+  · simp
+  · split <;> simp
+
 /-- sending through a handle whose runtime has shut down is an error, never a panic; a live handle gives whatever
 the socket's send gives -/
 theorem dead_handle_is_err (r : Out Unit) : sendMsg false r = .err ∧ sendMsg true r = r := by
